@@ -37,7 +37,7 @@ struct Content {
     bool locks = false; bool analogGroupEmpty = false; int valueSet = 0; int gapWord = 10;
     // hooks used by the C12 pattern files
     std::function<uint32_t(int, int, int)> ptFn, anFn; std::vector<GParam> customParams; std::vector<uint32_t> eventTimes; bool haveRateBits = false; uint32_t rateBits = 0;
-    int lastOverride = -1;
+    int lastOverride = -1; bool blankLabel = false;
 };
 struct Layout {
     int zeros = 0; bool zeroPrologue = false; int paramBlock = 2; std::string order = "default"; std::string ids = "dense"; bool lastOffsetZero = false; bool lowerNames = false;
@@ -62,7 +62,7 @@ inline std::vector<GGroup> buildGroups(const Content& c, const Layout& l) {
     P.params.push_back(GParam::floats("RATE", {}, {c.haveRateBits ? c.rateBits : f2b(c.pointRate)}, true));
     P.params.push_back(GParam::ints("DATA_START", {}, {0}, true));      // patched by encode()
     P.params.push_back(GParam::ints("FRAMES", {}, {c.nFrames}, true));
-    {   int n = std::min(255, std::max(0, c.nPoints + c.labelsDelta)); std::vector<std::string> v; for (int i = 0; i < n; ++i) v.push_back(ptLabel(i)); P.params.push_back(GParam::strs("LABELS", 4, {n}, v, D("labels")));
+    {   int n = std::min(255, std::max(0, c.nPoints + c.labelsDelta)); std::vector<std::string> v; for (int i = 0; i < n; ++i) v.push_back(ptLabel(i)); if (c.blankLabel && n > 0) v[(size_t)n - 1] = "    "; P.params.push_back(GParam::strs("LABELS", 4, {n}, v, D("labels")));
         int nd = std::min(c.nPoints, 255); std::vector<std::string> d; for (int i = 0; i < nd; ++i) d.push_back(i % 2 ? "" : "desc" + std::to_string(i)); P.params.push_back(GParam::strs("DESCRIPTIONS", 8, {nd}, d)); }
     P.params.push_back(GParam::strs("UNITS", 4, {}, {"mm"}));           // 1-D padded string
     G.push_back(P);
@@ -166,7 +166,7 @@ inline std::vector<Dim> dims(bool thorough) {
     d.push_back({"extra", {"small", "none", "bytes", "dim3", "str1d", "empty", "int0", "all", "char0d"}});
     d.push_back({"descs", {"short", "none", "lower", "d127", "d128", "d255"}});
     d.push_back({"locks", {"no", "yes"}});
-    d.push_back({"labels", {"equal", "fewer", "more"}});
+    d.push_back({"labels", {"equal", "fewer", "more", "blank"}});
     d.push_back({"alabels", {"equal", "fewer", "more"}});
     d.push_back({"zeros", {"0", "1", "7", "512"}});
     d.push_back({"prologue", {"0150", "0000"}});
@@ -184,7 +184,7 @@ inline bool apply(const Choice& ch, Content& c, Layout& l) {   // returns false 
     c.first = atoi(get("first", "1").c_str()); c.nEvents = atoi(get("events", "0").c_str());
     std::string r = get("rates", "100x2"); float pr = (float)atof(r.c_str()); c.pointRate = pr; c.analogRate = pr * (float)c.spf; if (pr == 0.0f) { c.analogRate = 100.f; c.spf = 1; if (ch.count("spf") && ch.at("spf") != "1") return false; }
     c.valueSet = get("values", "plain") == "special" ? 1 : 0; c.extra = get("extra", "small"); c.descs = get("descs", "short"); c.locks = get("locks", "no") == "yes";
-    std::string lb = get("labels", "equal"); c.labelsDelta = lb == "fewer" ? -1 : lb == "more" ? 1 : 0; if (lb == "fewer" && c.nPoints == 0) return false;
+    std::string lb = get("labels", "equal"); c.labelsDelta = lb == "fewer" ? -1 : lb == "more" ? 1 : 0; if (lb == "fewer" && c.nPoints == 0) return false; c.blankLabel = lb == "blank"; if (c.blankLabel && c.nPoints == 0) return false;
     std::string al = get("alabels", "equal"); c.alabelsDelta = al == "fewer" ? -1 : al == "more" ? 1 : 0; if (al == "fewer" && c.nChans == 0) return false;
     l.zeros = atoi(get("zeros", "0").c_str()); l.zeroPrologue = get("prologue", "0150") == "0000"; l.paramBlock = atoi(get("pblock", "2").c_str()); l.order = get("order", "default"); l.ids = get("ids", "dense");
     l.lastOffsetZero = get("lastoff", "ptr") == "zero";
